@@ -48,6 +48,8 @@ def cases(draw, tier):
             'model_kind': draw(st.sampled_from(['tt', 'tt_str', 'py', 'py_int'])),
             'time_limit': draw(st.sampled_from([None, None, None, None, None, None, None, 60])),
             'again': draw(st.integers(0, 3)) == 0,
+            # after a first answer one of its wires is forbidden and the same finder asked again (0 = no)
+            'refine': draw(st.sampled_from([0, 0, 0, draw(st.integers(1, 60))])),
             'transport': draw(st.sampled_from(['none', 'none', 'deepcopy', 'pickle'])),
             'realise': [[draw(st.integers(0, 60)), draw(st.integers(0, 60)), draw(st.integers(0, 60))] for _ in range(6)],
             'out_pick': [draw(st.integers(0, 60)) for _ in range(m)]}
@@ -368,8 +370,26 @@ def check_synthesis(case):
             f'{["".join("*" if (dcs[i] >> j) & 1 else str((cols[i] >> j) & 1) for j in range(W)) for i in range(m)]} constraints={applied}')
     verdict = None
     # the same finder may be asked more than once; every answer has to stand on its own (the last one is examined)
-    for attempt in range(2 if case.get('again') else 1):
+    refined = False
+    for attempt in range(2 if (case.get('again') or case.get('refine')) else 1):
         previous = verdict
+        if attempt and case.get('refine') and previous == 'found' and G >= 1:
+            # "another one, please": a wire the first answer uses is forbidden on the same finder, which is asked again
+            try:
+                first_nl = refsem.from_circuit(circ)
+                pos = {str(i): i for i in range(n)}
+                pos.update({f's{k}': k for k in range(n, n + G)})
+                k = n + (case['refine'] % G)
+                opr = next(g_[2] for g_ in first_nl['gates'] if g_[0] == f's{k}')
+                fr = pos[opr[(case['refine'] // 7) % 2]]
+            except (StopIteration, KeyError, IndexError):
+                fr = None  # (the first answer is not of the promised shape; the second one is examined below all the same)
+            if fr is not None:
+                finder.forbid_wire(fr, k)
+                applied = list(applied) + [('forbid', fr, k)]
+                desc += f' then forbid_wire({fr}, {k}) after a first answer'
+                refined = True
+                cls.add('refined_after_answer')
         try:
             if case['time_limit']:
                 circ = finder.find_circuit(time_limit=case['time_limit'])
@@ -383,7 +403,7 @@ def check_synthesis(case):
             return {'nt': False, 'cls': cls | {'inconclusive_timeout'}}
         if attempt:
             cls.add('asked_twice')
-            if verdict != previous:
+            if verdict != previous and not refined:
                 raise Violation('verdict_changes_on_repeat', f'{desc}: first find_circuit said {previous}, the second {verdict}')
     # get_cnf() is equisatisfiable with the verdict
     cnf = [list(c) for c in finder.get_cnf()]
@@ -464,10 +484,10 @@ SPEC = {
              'every imposed constraint, normalisation) and get_cnf() equisatisfiable with the verdict. Completeness: on NoSolutionError '
              'an own depth-first enumeration of the same canonical space must find nothing (spaces above the bound are inconclusive). '
              'Non-trivial: found with >=2 gates, or NoSolution confirmed over >=100 candidates.'
-             ' Added during the build: models answering 0 / 1 instead of False / True, 10-13 outputs, the same finder asked twice, transported models, refused constraint calls incl. descending predecessor pairs derived from the witness circuit (nothing of a refused call may stick).'),
+             ' Added during the build: models answering 0 / 1 instead of False / True, 10-13 outputs, the same finder asked twice (also with a wire of the first answer forbidden in between), transported models, refused constraint calls incl. descending predecessor pairs derived from the witness circuit (nothing of a refused call may stick).'),
     'assumptions': ['pysat replaced by a z3-backed stand-in: SAT models re-checked, UNSAT answers cross-checked by the reference enumeration'],
     'subs': [Sub('synthesis', cases, check_synthesis, {'quick': 2400, 'thorough': 72000}, shrink_quick=False)],
-    'required_classes': {'synthesis': ['found', 'no_solution_confirmed', 'fix:first', 'fix:second', 'fix:both', 'forbid_wire',
+    'required_classes': {'synthesis': ['refined_after_answer', 'found', 'no_solution_confirmed', 'fix:first', 'fix:second', 'fix:both', 'forbid_wire',
                                        'basis:custom', 'basis:FULL', 'basis:AIG', 'time_limit', 'invalid_constraint_rejected',
                                        'model:py_int', 'outputs>=11']},
 }
